@@ -26,7 +26,7 @@ import {
 } from "./hash.js";
 import { JSONSchema7, JSONSchema7Definition } from "./json-schema.js";
 import { removeNullUnionBranch } from "./openapi-pp.js";
-import { printErrors } from "./err.js";
+import { printErrors, safeStringify } from "./err.js";
 export { generateHashFromString, generateHashFromNumbers } from "./hash.js";
 
 const JSON_PROTO = Object.getPrototypeOf({});
@@ -249,7 +249,7 @@ function prependPath(parentPath: string[], err: DecodeError): DecodeError {
 function deduplicateErrors(errors: DecodeError[]): DecodeError[] {
   const seen = new Set<string>();
   return errors.filter((err) => {
-    const key = JSON.stringify(err);
+    const key = safeStringify(err);
     if (seen.has(key)) return false;
     seen.add(key);
     return true;
@@ -1636,12 +1636,12 @@ export class MapRuntype extends BaseRuntype {
     }
     let acc: DecodeError[] = [];
     for (const [k, v] of input) {
-      pushPath(ctx, `key(${JSON.stringify(k)})`);
+      pushPath(ctx, `key(${safeStringify(k)})`);
       if (!this.keyParser.validate(ctx, k)) {
         acc = acc.concat(this.keyParser.reportDecodeError(ctx, k));
       }
       popPath(ctx);
-      pushPath(ctx, `value(${JSON.stringify(k)})`);
+      pushPath(ctx, `value(${safeStringify(k)})`);
       if (!this.valueParser.validate(ctx, v)) {
         acc = acc.concat(this.valueParser.reportDecodeError(ctx, v));
       }
@@ -1698,7 +1698,7 @@ export class SetRuntype extends BaseRuntype {
     }
     let acc: DecodeError[] = [];
     for (const v of input) {
-      pushPath(ctx, `item(${JSON.stringify(v)})`);
+      pushPath(ctx, `item(${safeStringify(v)})`);
       if (!this.itemParser.validate(ctx, v)) {
         acc = acc.concat(this.itemParser.reportDecodeError(ctx, v));
       }
@@ -1850,7 +1850,7 @@ export class AnyOfDiscriminatedRuntype extends BaseRuntype {
     const parser = this.mapping[input[this.discriminator]];
     if (parser == null) {
       throw new Error(
-        "INTERNAL ERROR: Missing parser for discriminator " + JSON.stringify(input[this.discriminator]),
+        "INTERNAL ERROR: Missing parser for discriminator " + safeStringify(input[this.discriminator]),
       );
     }
     return {
